@@ -48,9 +48,12 @@ In0 == [op |-> "", s |-> "", req |-> 0, uri |-> <<>>, id |-> 0, o |-> O0, uri2 |
 U_wampdot == <<"w","a","m","p",".">>
 
 \* ("ppt" \in MCKinds: payload passthru mode - s1 announced it for every role, s2 as a callee only)
+\* ("pci" \in MCKinds: progressive call invocations - s1 announced them as caller and callee, s2 as a caller only)
 FeatOf(s) == IF s = "s1" THEN <<"callee:call_canceling", "callee:progressive_call_results", "subscriber:publisher_identification">>
                               \o (IF "ppt" \in MCKinds THEN <<"publisher:payload_passthru_mode", "caller:payload_passthru_mode", "callee:payload_passthru_mode">> ELSE <<>>)
+                              \o (IF "pci" \in MCKinds THEN <<"callee:progressive_call_invocations", "caller:progressive_call_invocations">> ELSE <<>>)
              ELSE IF s = "s2" THEN <<"callee:call_timeout">> \o (IF "ppt" \in MCKinds THEN <<"callee:payload_passthru_mode">> ELSE <<>>)
+                                   \o (IF "pci" \in MCKinds THEN <<"caller:progressive_call_invocations">> ELSE <<>>)
              ELSE <<>>
 PptSet == IF "ppt" \in MCKinds THEN {"", "mqtt"} ELSE {""}
 JoinOf(s) == [authid |-> IF s = "s3" THEN "alice" ELSE "u1", color |-> IF s = "s1" THEN "red" ELSE "",
@@ -110,7 +113,8 @@ Observe(i) ==
                    ELSE IF i.op = "leave" THEN {} ELSE h0]
      /\ invseen' = [s \in DOMAIN o |-> (IF s \in DOMAIN invseen THEN invseen[s] ELSE {})
                                         \cup {sm[2].req : sm \in {x \in invs : x[1] = s}}]
-     /\ dupinv' = (dupinv \/ \E sm \in invs : sm[1] \in DOMAIN invseen /\ sm[2].req \in invseen[sm[1]])
+     \* (a further chunk of a progressive call travels under the call's invocation id: C03_Chunks)
+     /\ dupinv' = (dupinv \/ (i.how # "chunk" /\ \E sm \in invs : sm[1] \in DOMAIN invseen /\ sm[2].req \in invseen[sm[1]]))
      /\ intr' = [k \in DOMAIN intr \cup {<<sm[1], sm[2].req>> : sm \in cint} |->
                    (IF k \in DOMAIN intr THEN intr[k] ELSE 0) + Cardinality({sm \in cint : <<sm[1], sm[2].req>> = k})]
      /\ LET joins(o2)  == {sm[2].x : sm \in {z \in all : z[1] = o2 /\ z[2].k = "EVENT" /\ z[2].v = U_session_on_join}}
@@ -167,11 +171,21 @@ MCNext ==
              Do([In0 EXCEPT !.op = "unregister", !.s = s, !.req = N, !.id = id], UnregisterFx(Cur, s, N, id))
      \/ /\ "call" \in MCKinds
         /\ \E s \in J, u \in Targets, tmo \in {0, 2}, rp \in BOOLEAN, dme \in (IF "disc" \in MCKinds THEN BOOLEAN ELSE {FALSE}), ppt \in PptSet :
-             LET o == [O0 EXCEPT !.tmo = tmo, !.rprog = rp, !.dme = dme, !.ppt = ppt]
+           \E more \in (IF "pci" \in MCKinds THEN BOOLEAN ELSE {FALSE}) :
+             LET o == [O0 EXCEPT !.tmo = tmo, !.rprog = rp, !.dme = dme, !.ppt = ppt, !.prog = more]
                  i == [In0 EXCEPT !.op = "call", !.s = s, !.req = N, !.uri = u, !.o = o] IN
              IF BestRegs(Cur, u) = {} THEN Do(i, CallFx(Cur, s, N, u, o, "p", <<>>, "", 0))
+             ELSE IF more /\ ~Has(Cur, s, "caller:progressive_call_invocations")
+             THEN Do(i, LeaveFx(Cur, s, "violation", ""))      \* a feature it did not announce: the session ends
              ELSE \E k \in BestRegs(Cur, u) : \E callee \in Eligible(regs[k]) :
                     Do(i, CallFx(Cur, s, N, u, o, "p", k, callee, NextId(used.inv[callee])))
+     \* a further chunk of a progressive call in progress (it may name any procedure)
+     \/ /\ "pci" \in MCKinds
+        /\ \E c \in issued, more \in BOOLEAN, u \in Targets :
+             /\ c[1] \in J /\ InProgress(Cur, c)
+             /\ LET o == [O0 EXCEPT !.prog = more]
+                    i == [In0 EXCEPT !.op = "call", !.how = "chunk", !.s = c[1], !.req = c[2], !.uri = u, !.o = o] IN
+                Do(i, ChunkFx(Cur, c[1], c[2], o, "p"))
      \/ /\ "cancel" \in MCKinds
         /\ \E s \in J, c \in issued, mode \in {"", "skip", "kill", "bogus"} :
              Do([In0 EXCEPT !.op = "cancel", !.s = s, !.req = c[2], !.o = [O0 EXCEPT !.mode = mode]],
@@ -277,8 +291,15 @@ BestOfView(u) ==
       wc  == {p \in all : p[2][2] = "wildcard" /\ WildcardMatch(u, p[2][1])}
   IN IF ex # {} THEN ex
      ELSE IF px # {} THEN {p \in px : \A q \in px : Len(q[2][1]) <= Len(p[2][1])} ELSE wc
+\* all chunks of one progressive call go to the same callee under the same invocation id and registration
+C03_Chunks ==
+  last.op = "call" /\ last.how = "chunk" =>
+    LET invs == {sm \in All(out) : sm[2].k = "INVOCATION"}
+        c    == <<last.s, last.req>> IN
+    /\ Cardinality(invs) = 1
+    /\ \A sm \in invs : c \in DOMAIN callinfo /\ sm[1] = callinfo[c].callee /\ sm[2].req = callinfo[c].inv /\ sm[2].a = callinfo[c].reg
 C03_Routing ==
-  last.op = "call" =>
+  last.op = "call" /\ last.how # "chunk" =>
     LET invs == {sm \in All(out) : sm[2].k = "INVOCATION"} IN
     /\ Cardinality(invs) <= 1
     /\ \A sm \in invs : \E p \in BestOfView(last.uri) : p[1] = sm[2].a /\ p \in regd[sm[1]]
